@@ -79,6 +79,24 @@ class SockWorld:
         self.sock.subscribe_on_message_received(msg_gather)
         self.sock.subscribe_on_message_received(msg_task)
 
+    def add_sync_raising_subscribers(self, which):
+        """A subscriber that fails when it is CALLED (a plain function raising instead of
+        returning an awaitable, e.g. one with a bug or a wrong signature), in addition to the
+        recording ones."""
+        def bad_msg(hdr, msg):
+            self.log.add("SUB.sync_raise", what="msg")
+            raise RuntimeError("message subscriber fails when called")
+
+        def bad_conn(*, connected):
+            self.log.add("SUB.sync_raise", what="conn")
+            raise RuntimeError("connection subscriber fails when called")
+
+        self._bad = getattr(self, "_bad", []) + [bad_msg, bad_conn]
+        if which in ("msg", "both"):
+            self.sock.subscribe_on_message_received(bad_msg)
+        if which in ("conn", "both"):
+            self.sock.subscribe_on_connection_changed(bad_conn)
+
     async def _on_msg(self, hdr, msg):
         if self.msg_delays:
             # a subscriber that takes its time (records when it has finished)
